@@ -743,7 +743,7 @@ pub fn run(which: Which, ctx: &mut Ctx) {
             });
             proptest::collection::vec(op, len..=len + 30).prop_map(move |ops| HistCase { n, ops })
         });
-        let minimal = pt::run(seed, 50 + w as u64, long_cases, &strat, |case, counting| {
+        let minimal = pt::run_with(seed, 50 + w as u64, long_cases, 3000, &strat, |case, counting| {
             wd.tick();
             if counting {
                 let mut st = cell.borrow_mut();
